@@ -39,6 +39,13 @@ CLAIMS = {
          "(a, b) pairs incl. cross-variant.",
          COMMON_NOTE + "destination operands of one clone_from body are disjoint &mut borrows (each reads the original field); Copy-ness itself (that the Copy impl is emitted and accepted) is checked under C01/C11.",
          "Lean 4 theorem + differential correspondence with instrumented leaves"),
+ "C06": ("Theorems debug_correct (for every accepted configuration and value the fmt body makes exactly the builder calls of the effective "
+         "shape: builder kind, effective name incl. Enum::Variant, ordered entries with effective keys `_i`/rename, formatter and value), "
+         "debug_output (both formatter modes), shownFields_positions (ignored absent, declaration order), derive_equiv_enum (parameter-free = "
+         "#[derive(Debug)]). Tie: real macro + rustc, {:?} and {:#?} strings over name/rename/named_field/ignore/method assignments; "
+         "parameter-free definitions also against a #[derive(Debug)] twin.",
+         COMMON_NOTE + "core::fmt's DebugStruct/DebugTuple/DebugMap/PadAdapter are modelled (Sem/FmtBuilders.lean) and validated by the same runs, not proved; derive-equivalence is proved for enums and observed for structs.",
+         "Lean 4 theorem on builder calls + differential correspondence on output strings"),
 }
 
 ENGINES = [
